@@ -1,6 +1,7 @@
 package mexplore
 
 import (
+	"bytes"
 	"fmt"
 	"math/rand"
 	"strings"
@@ -284,6 +285,19 @@ func (v *verifier) ok(st *channel.State, i int, sig wallet.Sig) bool {
 		defer func() { _ = recover() }()
 		ok, err := channel.Verify(v.w.Parties[i].Any(), st, sig)
 		res = ok && err == nil
+		// a signature that is part of a transaction must also survive the transaction's own wire
+		// format unchanged (it is stored, synced and handed to the adjudicator in that form)
+		if res {
+			var buf bytes.Buffer
+			if wallet.EncodeSparseSigs(&buf, []wallet.Sig{sig}) != nil {
+				res = false
+				return
+			}
+			back := make([]wallet.Sig, 1)
+			if wallet.DecodeSparseSigs(&buf, &back) != nil || buf.Len() != 0 || !bytes.Equal(back[0], sig) {
+				res = false
+			}
+		}
 	}()
 	v.mu.Lock()
 	if len(v.cache) > 4096 {
